@@ -9,18 +9,26 @@ CFG = {
     "theory_files": ["theories/Trees/Octree.v", "theories/Trees/Bvh.v", "theories/Trees/OctreeProofs.v",
                      "theories/Trees/BvhProofs.v", "theories/Trees/ElemProofs.v", "theories/Trees/CheckProofs.v",
                      "theories/Trees/TriProofs.v", "theories/Trees/MeshProofs.v", "theories/Trees/SphereProofs.v"],
-    "level_text": "Coq theorems about an executable model of trees/octree.go (newOctree, the five queries) and of "
-                  "rendering/bvh.go (BVHNode.Hit) / hit.go (HitList.Hit): for every element list, every maximum depth and "
-                  "every query the tree built by the model satisfies the containment invariant, and every tree satisfying "
-                  "it answers ElementsContainingPoint / ElementsWithinRange / ElementsIntersectingRay / ClosestPoint exactly "
-                  "like the exhaustive scan (same identities, minimal distance, the returned index is the element that "
-                  "produced the point); BVH nearest hit equals the linear list's.  The model is tied to the Go code on "
-                  "every run: the implementation's dumped tree is tested against the invariant, the model's queries are evaluated on that tree and compared with the implementation's answers by vm_compute, "
-                  "and a direct oracle (exhaustive scan over the implementation's own per-element answers) judges the output",
+    "level_text": "Coq theorems about an executable model of trees/octree.go (newOctree, the five queries), of the mesh-level "
+                  "entry points Mesh.OctTree / OctTreeDepth / OctTreeWithAttributeAndDepth (element i = mesh primitive i), of the "
+                  "element kinds' exact geometry (point, segment, triangle: rational models of ClosestPointOnLine and "
+                  "scopedTri.ClosestPoint; boxes; spheres' boxes) and of rendering/bvh.go (NewBVHTree, BVHNode.Hit) / hit.go "
+                  "(HitList.Hit): for every element list, every maximum depth and every query the tree built by the model "
+                  "satisfies the containment invariant, and every tree satisfying it answers ElementsContainingPoint / "
+                  "ElementsWithinRange / ElementsIntersectingRay / ClosestPoint exactly like the exhaustive scan (same "
+                  "identities = mesh primitive indices, minimal distance, the returned index is the element that produced the "
+                  "point) - ClosestPoint without any hypothesis on the elements for points, boxes, segments and triangles of "
+                  "non-zero area; BVHNode.Hit on every tree NewBVHTree can build = HitList.Hit = the exhaustive nearest hit.  "
+                  "The model is tied to the Go code on every run: the implementation's dumped tree is tested against the "
+                  "invariant, the model's queries are evaluated on that tree and compared with the implementation's answers by "
+                  "vm_compute, element boxes are recomputed in Coq from the mesh's vertices and indices, Go's segment / "
+                  "triangle closest points are compared with the exact rational models, and a direct oracle (exhaustive scan "
+                  "over the implementation's own per-element answers) judges the output",
     "level_note": "Trusted: Coq kernel + vm_compute; hand-written model tied by differential correspondence only (generator "
                   "quality bounds it). Coordinates are exact (quarter grid, integers x4); the elements' own ClosestPoint / "
-                  "ray-triangle arithmetic is float64 and enters as data (its one assumption - the closest point lies in the "
-                  "element's box - is re-checked per case)",
+                  "ray-triangle / ray-sphere arithmetic is float64 and enters as data (closest points of segments and triangles "
+                  "are compared with the exact models up to 1e-12; the one assumption the tree proofs need - the point lies in "
+                  "the element's box - is proved for the exact models and re-checked per case on Go's numbers)",
     "technique": "Coq proof (induction over depth / tree / work list; slab-test monotonicity over Q) + vm_compute correspondence check",
     "design_ref": "DESIGN.md §4 C16, §5 entries 17, 28",
     # -bvhmin: BVH rays with a non-zero lower bound (fix b2fa3f0 landed).  Streams that show findings not yet
@@ -29,17 +37,29 @@ CFG = {
     # oct:index-less-line-strip-panics); C16_EXTRA="-rawsphere -emptystrip" switches them on for one run.
     "extra_args": ["-bvhmin"] + os.environ.get("C16_EXTRA", "").split(),
     "n_quick": 150, "n_thorough": 2000,
-    "rule": "element sets of points / line strips / triangles (Mesh.OctTree, OctTreeDepth) and plain boxes (trees.NewOctree…) on "
-            "the integer grid: layouts uniform-small, uniform-wide, clustered, coincident, lattice (elements on the cells' "
-            "centre planes), planar, collinear, outlier; 0..60 elements (thorough: ..2000), maximum depth 0..6 and automatic; "
-            "per set 3 queries of each kind: containing point, within radius (incl. exact boundary, 0, negative), ray "
-            "(axis-parallel with zero components, one zero component, diagonal, general, tiny/subnormal components; zero components of either sign in every pattern, also derived by Flip/Scale(-1)/Zero.Sub/Reflect; lower bound negative / 0 / positive; "
-            "upper bound cutting the set), traversal with a shrinking upper bound, closest point (vertices, cell centres, "
-            "midpoints = ties, faces, outside, points on edge extensions of triangles); every 4th case a BVH over a generated "
-            "triangle mesh (random split-axis seed) with one ray, BVHNode.Hit vs HitList.Hit vs exhaustive minimum; "
+    "rule": "element sets of points / line strips / triangles (Mesh.OctTree, OctTreeDepth, and OctTreeWithAttributeAndDepth on a "
+            "non-position attribute with decoy positions) and plain boxes (trees.NewOctree...) on the integer grid: layouts "
+            "uniform-small, uniform-wide, clustered, coincident, lattice (elements on the cells' centre planes), planar, "
+            "collinear, outlier; triangle sets with triangles that name a vertex twice followed by proper ones; 0..60 elements "
+            "(thorough: ..2000), maximum depth 0..6 and automatic; per set the mesh itself (element i = primitive i, boxes "
+            "recomputed in Coq) and 3 queries of each kind, placed relative to the element layout or to the cells of the tree "
+            "the implementation builds (corners, face / edge midpoints, quarter points, just outside): containing point, within "
+            "radius (incl. exact boundary, 0, negative, and radii that just reach a cell's Min and Max corners from a point off "
+            "their diagonal), ray (axis-parallel with zero components, one zero component, diagonal, general, tiny/subnormal "
+            "components; zero components of either sign in every pattern, also derived by Flip/Scale(-1)/Zero.Sub/Reflect; lower "
+            "bound negative / 0 / positive; upper bound cutting the set), traversal with a shrinking upper bound, closest point "
+            "(vertices, cell centres, midpoints = ties, faces, outside, points on edge extensions of triangles) with up to 3 "
+            "elements' own closest points compared with the exact model; every 4th case a BVH with one ray: triangle meshes "
+            "(NewBVHFromMesh), spheres (static or moving over a time window, ray time at both ends and in between) and mixed "
+            "sets through NewBVHTree on a sub-range [start,end) of a longer slice, lower bound 0 / positive / negative, rays "
+            "aimed at triangle interiors, sphere centres / insides / silhouettes / just outside; BVHNode.Hit vs HitList.Hit vs "
+            "exhaustive minimum vs rendering.Tree.Hit (octree over the boxes) vs rendering.Mesh.Hit (narrowing traversal); "
             "distinct by input; non-trivial = at least two elements and at least one evaluated query",
-    "trusted": ["the elements' own geometry (scopedLine/scopedTri.ClosestPoint, rayIntersectsTri) is float arithmetic executed by "
-                "Go; its results enter the cases as exact dyadic numbers and the exhaustive scan is computed on the same numbers",
+    "trusted": ["the elements' own geometry (scopedLine/scopedTri.ClosestPoint, rayIntersectsTri, Sphere.Hit) is float arithmetic "
+                "executed by Go; its results enter the cases as exact dyadic numbers and the exhaustive scan is computed on the same "
+                "numbers; segment / triangle closest points are additionally compared with the exact rational models (tolerance 1e-12)",
+                "sphere members of the default BVH stream report the box centre +- radius through a wrapper of the harness "
+                "(rendering.Sphere.BoundingBox is half as wide: finding, stream -rawsphere off until fixes/c16-sphere-bounding-box lands)",
                 "queries whose per-element distances are NaN (zero-area triangle / zero-length segment) or whose element point "
                 "leaves the element's box by rounding noise (<= 1e-9 relative) are counted and skipped for ClosestPoint only"],
     "modelled": ["math.Sqrt is monotone (Distance comparisons are modelled on squared distances; exact on the harness' grid)",
